@@ -108,6 +108,9 @@ def case_strategy(draw):
         case["explicit_n"] = draw(st.booleans())
     if kernel == "max_step":
         case["sigma"] = draw(st.booleans())
+        case["sigma_none"] = draw(st.booleans())       # sigma = None given explicitly (the documented default value)
+    if kernel == "scale":
+        case["int_beta"] = draw(st.booleans())         # "beta: list of positive numbers": integral values as Python ints
     return case
 
 
@@ -140,7 +143,8 @@ def build_W(case):
             R = 2.0 * np.eye(m) + np.tril(R, -1) * 0.25
         Wn["r"].append(R)
         Wn["rti"].append(np.linalg.inv(R).T if m else R.copy())
-    Wc = {"d": mk(Wn["d"]), "di": mk(Wn["di"]), "beta": list(Wn["beta"]), "v": [mk(v) for v in Wn["v"]],
+    Wc = {"d": mk(Wn["d"]), "di": mk(Wn["di"]),
+          "beta": [int(b) if (case.get("int_beta") and float(b).is_integer()) else b for b in Wn["beta"]], "v": [mk(v) for v in Wn["v"]],
           "r": [mk(r) for r in Wn["r"]], "rti": [mk(r) for r in Wn["rti"]]}
     if mnl:
         Wc["dnl"], Wc["dnli"] = mk(Wn["dnl"]), mk(Wn["dnli"])
@@ -431,7 +435,7 @@ def run_kernel(case, name, M):
     if k == "max_step":
         if not case["sigma"]:
             xm = mk(x0)
-            got = M.max_step(xm, dims, mnl)
+            got = M.max_step(xm, dims, mnl, None) if case.get("sigma_none") else M.max_step(xm, dims, mnl)
             if not np.array_equal(arr(xm), x0):
                 raise Violation("%s [%s]: x modified without sigma" % (what, name))
             ms = rc.min_slack(x0, dims, mnl)
@@ -573,7 +577,7 @@ def oracle(case, stats=None):
 
 def search(ctx, stats):
     n = ctx.n(60000, 1500000)
-    v = run_given(case_strategy(), lambda c: oracle(c, stats), ctx.seed, n, stats)
+    v = run_given(case_strategy(), lambda c: oracle(c, stats), ctx.seed, n, stats, journal=ctx.journal)
     return [v] if v else []
 
 
